@@ -262,6 +262,9 @@ def ref_reduce(fn, clean):
             return None
         m = sum(clean) / len(clean)
         return math.sqrt(sum((x - m) ** 2 for x in clean) / (len(clean) - 1))
+    if fn == "stdev-population":        # None is skipped: the divisor is the number of non-None values
+        m = sum(clean) / len(clean)
+        return math.sqrt(sum((x - m) ** 2 for x in clean) / len(clean))
 
 
 def red_close(a, b):
@@ -278,9 +281,9 @@ def unit_reduce(unit):
     from serif import Vector
     _, kind, N = unit
     agg = Agg()
-    fns = {"bool": ["sum", "mean", "min", "max", "any", "all", "stdev"],
-           "int": ["sum", "mean", "min", "max", "any", "all", "stdev"],
-           "float": ["sum", "mean", "min", "max", "any", "all", "stdev"],
+    fns = {"bool": ["sum", "mean", "min", "max", "any", "all", "stdev", "stdev-population"],
+           "int": ["sum", "mean", "min", "max", "any", "all", "stdev", "stdev-population"],
+           "float": ["sum", "mean", "min", "max", "any", "all", "stdev", "stdev-population"],
            "complex": ["sum", "mean", "any", "all"],
            "str": ["min", "max", "any", "all"],
            "date": ["min", "max"]}[kind]
@@ -301,14 +304,18 @@ def unit_reduce(unit):
                     if fn in ("min", "max") and not clean:
                         agg.skipped["min-max-of-no-values-unspecified"] += 1
                         continue
+                    if fn == "stdev-population" and len(clean) < 2:
+                        agg.skipped["population-stdev-of-fewer-than-two-values-unspecified"] += 1
+                        continue
                     want = ref_reduce(fn, clean)
                     agg.evals += 1; agg.transitions += 1; agg.compared += 1
                     if clean and len(clean) < n:
                         agg.nontrivial += 1
                     case = {"reduction": fn, "values": xs, "kind": kind}
-                    py = f"from serif import Vector\nfrom datetime import date\nprint(Vector({xs!r}).{fn}())  # expected {want!r}"
+                    call = "stdev(population=True)" if fn == "stdev-population" else fn + "()"
+                    py = f"from serif import Vector\nfrom datetime import date\nprint(Vector({xs!r}).{call})  # expected {want!r}"
                     try:
-                        got = getattr(v, fn)()
+                        got = v.stdev(population=True) if fn == "stdev-population" else getattr(v, fn)()
                     except Exception as e:
                         agg.violation(V(f"reduce.{fn}", "raises-" + type(e).__name__ + ("-with-None" if None in xs else ""), case, want, repr(e)[:80], py))
                         continue
@@ -351,9 +358,21 @@ def unit_na(unit):
             if any(m) and not all(m):
                 agg.nontrivial += 1
             case = {"values": xs, "kind": kind}
-            for name in (None, "nm"):
+            histories = [(None, "fresh"), ("nm", "fresh")]
+            if not any(m) and kind != "object":
+                # the dtype was nullable at some point of the vector's life; its values hold no None (any more)
+                histories += [(None, "none-written-then-overwritten"), (None, "none-sliced-away"), (None, "none-masked-away")]
+            for name, prov in histories:
+                case = dict(case, operand_history=prov)
                 try:
-                    v = Vector(xs, name=name)
+                    if prov == "fresh":
+                        v = Vector(xs, name=name)
+                    elif prov == "none-written-then-overwritten":
+                        v = Vector(list(xs)); v[0] = None; v[0] = xs[0]
+                    elif prov == "none-sliced-away":
+                        v = Vector([None] + list(xs))[1:]
+                    else:
+                        v = Vector(list(xs) + [None])[[True] * n + [False]]
                     b = obs(v)
                     isna = v.isna()
                     agg.transitions += 1; agg.evals += 1; agg.compared += 1
